@@ -20,6 +20,12 @@ def gen_case(rng, root):
     for i in range(nf):
         d = rng.choice(dirs)
         ext = rng.choice([".txt", ".txt", ".md", WILD.get(fmt, ".txt")])
+        if names and rng.random() < 0.3:
+            # a path that is a proper prefix / extension of an earlier one (the manifest must tell them apart)
+            o = rng.choice(names)
+            cand = rng.choice([o + ".bak", o + "2", o.rsplit(".", 1)[0], o[:-1]])
+            if cand and cand not in names and not cand.endswith("/"):
+                names.append(cand); continue
         names.append("%sf%d%s" % (d, i, ext))
     def marker(frm):
         k = rng.random()
@@ -81,6 +87,14 @@ def run(rep, tier, seed):
         if len(set(man)) != len(man):
             bad.append(("manifest-duplicate", "the manifest lists a file twice", c)); continue
         if mm != i:
+            mt, it = mm.split(" ")[0], i.split(" ")[0]
+            mman = mm.split(" ")[1:]
+            if mt == it and not cyc and set(mman) != set(man):
+                # same substituted text, so the same files were read; the model's manifest is the list of files referenced
+                unhex = lambda x: bytes.fromhex(x).decode("latin-1") if x != "-" else ""
+                miss = [unhex(x) for x in mman if x not in man]; extra = [unhex(x) for x in man if x not in mman]
+                bad.append(("manifest-wrong", "acyclic include graph: the manifest %s" % ("; ".join(
+                    (["omits referenced file(s) %s" % miss] if miss else []) + (["lists file(s) never referenced %s" % extra] if extra else []))), c)); continue
             bad.append(("model-vs-impl", "correspondence broken: TranscludeModel.v vs transclude.c", c)); continue
         ncorr += 1
     rep.cov["evaluations"] = len(cases)
@@ -110,4 +124,4 @@ def replay(rep, r):
     m = common.run_lines(drv, [r["case"]], args=["transclude"])[0]; i = common.run_lines(har, [r["case"]])[0]
     print("model", m[:600]); print("impl ", i[:600])
     if m.replace(" !", "") != i:
-        rep.violation("model-vs-impl", "differs", r)
+        rep.violation(r.get("key", "model-vs-impl"), "model and implementation differ", r)
